@@ -72,6 +72,10 @@ def seeded_table():
         if ok and own:
             c += 1
         needs = m.get("needs") or _needs(m.get("notes", ""))
+        if m.get("first_runs") is not None:
+            fr = [x for x in m["first_runs"] if x["check"] == m["property"]]
+            first = "first run: " + ("caught" if any(x["caught"] for x in fr) else "missed")
+            parts.insert(0, first)
         lines.append("| {} | {} | {} | {} | {} |".format(m["id"], m["property"], needs, status,
                                                          "; ".join(parts)))
         summ.append(m)
